@@ -13,23 +13,75 @@ open Afkak.Consumer Afkak.Monitor Afkak.Proofs.Consumer
     trace of the model the monitor that is run on the implementation's traces accepts. -/
 theorem C02_no_overlap (cfg : Cfg) (script : List PEntry) (evs : List Ev) :
     C02.noOverlapOk (trace cfg script evs) = true :=
-  accepts_trace _ _ cfg script evs (run_top cfg script evs).1.g1.ovOk
+  accepts_trace _ _ cfg script evs (run_g1 cfg script evs).ovOk
 
 /-- At most one uncancelled fetch/offset request is outstanding at any time, and at most one refetch
     is scheduled, on every trace. -/
 theorem C02_single_fetch (cfg : Cfg) (script : List PEntry) (evs : List Ev) :
     C02.singleFetchOk (trace cfg script evs) = true :=
-  accepts_trace _ _ cfg script evs (run_top cfg script evs).1.sf.sfOk
+  accepts_trace _ _ cfg script evs (run_sf cfg script evs).sfOk
+
+/-- Every message handed to the processor is one a fetch reply carried, with the offset and the payload it
+    carried there (the consumer invents, alters and resurrects nothing), on every trace. -/
+theorem C02_payload (cfg : Cfg) (script : List PEntry) (evs : List Ev) :
+    C02.payloadOk (trace cfg script evs) = true :=
+  accepts_trace _ _ cfg script evs (run_pay cfg script evs).payOk
+
+/-- A fetch reply as a broker produces it: Kafka offsets (≥ 0), and iterating its messages does not raise
+    OffsetOutOfRangeError (only a fetch REQUEST fails with that error). -/
+def saneReply (r : Reply) : Bool :=
+  r.msgs.all (fun x => decide (0 ≤ x.off)) &&
+    (match r.tail with
+     | .raise .outOfRange _ => false
+     | _ => true)
+
+/-- The hypothesis of `C02_increasing` on one event: fetch replies are `saneReply`; the outcome the
+    environment chooses for a cancelled fetch/offset request is not OffsetOutOfRange (the real client
+    yields FailedPayloads/Cancelled/…Unavailable there, `harness/lib/client_iface.md`). -/
+def saneEvent : Ev → Bool
+  | .fetchOk _ r => saneReply r
+  | .env (some (.outOfRange, _)) _ => false
+  | _ => true
+
+example : [Ev.start 0, .fetchOk 0 { msgs := [⟨0, 7⟩, ⟨1, 8⟩], tail := .done }, .env (some (.cancelled, 0)) none].all saneEvent = true := by
+  decide
+example : saneEvent (.fetchOk 0 { msgs := [⟨-3, 7⟩], tail := .done }) = false := by decide
+
+theorem saneEvent_ok (e : Ev) (h : saneEvent e = true) : EvOk e := by
+  cases e with
+  | fetchOk k r =>
+    simp only [saneEvent, saneReply, Bool.and_eq_true, List.all_eq_true, decide_eq_true_eq] at h
+    refine ⟨h.1, fun t ht => ?_⟩
+    rw [ht] at h
+    simp at h
+  | env rq cm =>
+    intro k t hk
+    subst hk
+    intro hk
+    subst hk
+    simp [saneEvent] at h
+  | _ => trivial
+
+/-- Offsets handed to the processor are strictly increasing - within a block, from block to block, across
+    stop/start inside a run of the processing loop; the only descents are the ones a `start()` or a firing
+    `auto_offset_reset` policy permit (one each).  For every configuration, processor script and event list
+    whose fetch replies carry Kafka offsets (≥ 0; a message at offset -3 would move the fetch position onto
+    the sentinel OFFSET_EARLIEST) and in which OffsetOutOfRange only ever arrives as the failure of a fetch
+    request: the monitor that is run on the implementation's traces accepts the model's trace. -/
+theorem C02_increasing (cfg : Cfg) (script : List PEntry) (evs : List Ev) (h : evs.all saneEvent = true) :
+    C02.increasingOk cfg.reset.isSome (trace cfg script evs) = true :=
+  accepts_trace _ _ cfg script evs
+    (run_inc cfg script evs (fun e he => saneEvent_ok e (List.all_eq_true.1 h e he))).incOk
 
 end Afkak.Props.C02
 
 /- OBLIGATIONS
 C02_no_overlap
 C02_single_fetch
--/
-/- OPEN_STATEMENTS
 C02_increasing
 C02_payload
+-/
+/- OPEN_STATEMENTS
 C02_no_gap_no_dup
 C02_prompt
 -/
